@@ -454,6 +454,42 @@ impl Cor for Svc {
 }
 cor_struct!(WithRefs { f: FQuery, s: Svc, o: Option<FOne>, p: Principal });
 
+// a service whose method names order differently by name (byte order: "aa" < "b" < "hello_world" < "zz9")
+// than by label hash ("b" < "zz9" < "aa" < "hello_world")
+define_service!(pub Svc2 : { "b": func!((u8) -> (Nat) query); "aa": func!(() -> ()); "zz9": func!((Int) -> () oneway); "hello_world": func!((String) -> (String)) });
+impl Cor for Svc2 {
+    fn name() -> String {
+        "Svc2".into()
+    }
+    fn small() -> Vec<Self> {
+        Service::small().into_iter().map(Svc2).collect()
+    }
+    fn to_ty(_: &mut Env) -> Ty {
+        Ty::service(vec![
+            ("aa".into(), Ty::func(vec![], vec![], vec![])),
+            ("b".into(), Ty::func(vec![Ty::Prim(Prim::Nat8)], vec![Ty::Prim(Prim::Nat)], vec![Mode::Query])),
+            ("hello_world".into(), Ty::func(vec![Ty::Prim(Prim::Text)], vec![Ty::Prim(Prim::Text)], vec![])),
+            ("zz9".into(), Ty::func(vec![Ty::Prim(Prim::Int)], vec![], vec![Mode::Oneway])),
+        ])
+    }
+    fn to_val(&self) -> Val {
+        self.0.to_val()
+    }
+}
+
+// big-number vectors followed (in field-id order, either way round) by a big-number scalar
+cor_struct!(S10 { a_list: Vec<Nat>, b_int: Int, c_opt: Option<Int> });
+cor_struct!(S11 { b_list: Vec<Nat>, a_int: Int, set: BTreeSet<Nat>, z_int: Int });
+cor_struct!(S12 { ints: Vec<Int>, n: Nat, m: BTreeMap<Nat, Int>, after_map: Int });
+
+// type tables with more than 64 entries (table indices 64.. need two SLEB128 bytes)
+macro_rules! nest {
+    ($c:ident, $t:ty;) => { $t };
+    ($c:ident, $t:ty; $x:tt $($rest:tt)*) => { $c<nest!($c, $t; $($rest)*)> };
+}
+pub type DeepOpt70 = nest!(Option, u8; x x x x x x x x x x x x x x x x x x x x x x x x x x x x x x x x x x x x x x x x x x x x x x x x x x x x x x x x x x x x x x x x x x x x x x);
+pub type DeepVec66 = nest!(Vec, Option<Nat>; x x x x x x x x x x x x x x x x x x x x x x x x x x x x x x x x x x x x x x x x x x x x x x x x x x x x x x x x x x x x x x x x x x);
+
 #[macro_export]
 macro_rules! reg {
     ($v:ident; $($t:ty),* $(,)?) => { $( $v.push($crate::entry::<$t>()); )* };
@@ -509,7 +545,9 @@ pub fn register_misc(v: &mut Vec<Entry>) {
     reg!(v; S0, S1, S2, S3, S4, S5, S6, S7, S8, S9, Renamed, Bytes, Newtype, TupleS, UnitS, E1, Color, Tree, MA, MB, WrapList,
          Vec<S2>, Option<S3>, Vec<E1>, Option<E1>, BTreeMap<u8, E1>, (S1, E1), Vec<Color>, BTreeSet<Color>, BTreeMap<Color, u8>,
          List<S2>, List<Option<Int>>, G<S2>, G<Vec<u8>>, H<E1>, Vec<Tree>, Option<Tree>, Vec<MA>, (MA, MB), Option<MB>,
-         FQuery, FOne, Svc, WithRefs, Vec<FQuery>, Option<Svc>, BTreeMap<Principal, Svc>,
+         FQuery, FOne, Svc, WithRefs, Vec<FQuery>, Option<Svc>, BTreeMap<Principal, Svc>, Svc2, Vec<Svc2>, (Svc, Svc2),
+         S10, S11, S12, (Vec<Nat>, Int), (BTreeSet<Nat>, Option<Int>), (Vec<Int>, Nat), (Vec<Nat>, BTreeMap<u8, Int>, Int), Vec<(Vec<Nat>, Int)>,
+         DeepOpt70, DeepVec66, (DeepOpt70, S5), (S5, DeepOpt70), (DeepVec66, BTreeMap<u8, S2>),
          (u8, u16, u32), (Nat, Int, String), ((u8, u8), (Nat, Nat)), Vec<(String, Nat)>, Vec<(u8, Int)>, Vec<(Principal, Int)>,
          Result<S2, E1>, Result<(), ()>, Vec<Result<Nat, Int>>, Box<List<u8>>, Vec<Vec<Vec<u8>>>, Vec<Vec<Nat>>, Vec<Vec<Int>>,
          Option<Vec<Vec<Int>>>, [Box<u64>; 2], [Box<f64>; 2], Vec<Box<S2>>, Option<Vec<Box<i64>>>, H<Box<u64>>, H<Box<f64>>, BTreeMap<(u8, u8), Nat>, BTreeMap<Option<u8>, Int>, BTreeMap<Vec<u8>, Int>);
